@@ -21,27 +21,31 @@ def checkZero (s : Instr) (saved : Nat) (type : Nat) : Bool :=
     else false
   else false
 
-/-- `assemble_imm`. -/
-def assembleImm (s : Instr) : Bytes :=
-  if !s.imm then [] else
-  let row := rowAt s.key
-  let type := row.type
+/-- `assemble_imm`, first half: the constant's bytes and the optional zero byte -/
+def immCore (s : Instr) : Bytes :=
+  let type := (rowAt s.key).type
   let immOperand := if s.kw.isByte then s.cons &&& c_MAX_UNSIGNED_8BIT else s.cons
   let out := assembleConst immOperand
-  let out := if immOperand == 0 || checkZero s immOperand type then out ++ [0] else out
-  let bytes := out.length
-  if s.reducedImm || s.kw.isByte then out else
+  if immOperand == 0 || checkZero s immOperand type then out ++ [0] else out
+
+/-- `assemble_imm`, second half: how many zero bytes are appended after `bytes` bytes -/
+def immPad (s : Instr) (bytes : Nat) : Nat :=
+  if s.reducedImm || s.kw.isByte then 0 else
+  let row := rowAt s.key
+  let type := row.type
   let mode := s.opd0.reg &&& c_MODE_MASK
   let zeroPad :=
     ((type != c_CONTROL_FLOW && s.opOffset != 3 && !s.kw.isByte) && mode > c_noext8) ||
     (row.enc > c_I) || (type == c_PAD_ALWAYS)
-  if !zeroPad then out else
+  if !zeroPad then 0 else
   let is16 := mode == c_reg16 || mode == c_ext16
-  let pad :=
-    if bytes ≤ 4 && !(bytes == 1 && is16) then 4 - bytes
-    else if bytes > 4 && bytes ≤ 8 then 8 - bytes
-    else bytes
-  out ++ List.replicate pad 0
+  if bytes ≤ 4 && !(bytes == 1 && is16) then 4 - bytes
+  else if bytes > 4 && bytes ≤ 8 then 8 - bytes
+  else bytes
+
+/-- `assemble_imm`. -/
+def assembleImm (s : Instr) : Bytes :=
+  if !s.imm then [] else immCore s ++ List.replicate (immPad s (immCore s).length) 0
 
 /-- `assemble_mem_const`: constant (a `uint32_t` value) padded to 4 bytes. -/
 def assembleMemConst (c : Nat) : Bytes :=
@@ -58,6 +62,10 @@ def assembleMemDisp (s : Instr) : Bytes :=
     else a
   else []
 
+/-- the second byte of a three-byte VEX prefix (RXB and map), if the prefix has three bytes -/
+def vexMid (first vex rex : Nat) : Bytes :=
+  if first == c_C4H then [((vex >>> 8) ||| ((7 - (rex &&& c_REX_MASK)) <<< 5)) &&& 0xff] else []
+
 /-- `assemble_VEX`. -/
 def assembleVEX (s : Instr) (vex0 : Nat) : Bytes :=
   let rex := s.hex.rex
@@ -67,8 +75,7 @@ def assembleVEX (s : Instr) (vex0 : Nat) : Bytes :=
       (vex0, if !band rex c_rex_b then c_C5H else c_C4H)
     else (vex0, c_C4H)
   let vex := vex >>> 1
-  let b1 : Bytes :=
-    if first == c_C4H then [((vex >>> 8) ||| ((7 - (rex &&& c_REX_MASK)) <<< 5)) &&& 0xff] else []
+  let b1 : Bytes := vexMid first vex rex
   let vex := vex &&& (2 ^ 32 - 1 - c_CLEARvvvv)
   let vv := ((15 - s.hex.vvvv % 16) <<< 3) &&& c_MAX_SIGNED_8BIT
   let last :=
@@ -76,37 +83,32 @@ def assembleVEX (s : Instr) (vex0 : Nat) : Bytes :=
     else
       let rbit := if band rex c_rex_r then 0 else c_NEG8BIT_CHECK
       vv ||| (((vex &&& 0xff) ||| rbit) &&& 0xff)
-  [first] ++ b1 ++ [last]
+  first :: (b1 ++ [last])
 
-/-- loop of `assemble_instr` over the opcode slots; it may set `reduced_imm` and mask `cons`. -/
+/-- one slot of the opcode layout: the bytes it emits; the `ib` slot emits nothing but sets
+    `reduced_imm` and masks `cons` -/
+def emitSlot (row : Row) (s : Instr) (pos slot : Nat) : Instr × Bytes :=
+  let opc := slot &&& 0xff
+  if slot &&& (2 ^ 32 - 256) == 0 then
+    (s, [if pos == row.opOffI then (opc + s.opOffset) % 256 else opc])
+  else
+    let en := slot &&& c_GET_EN
+    if en == c_REX then (s, if s.hex.rex != 0 then [s.hex.rex % 256] else [])
+    else if en == c_REG then (s, [s.hex.reg % 256])
+    else if en == c_VEX then (s, assembleVEX s (slot &&& (2 ^ 32 - 1 - c_GET_EN)))
+    else if en == c_ib then
+      ({ s with reducedImm := true, cons := s.cons &&& c_MAX_UNSIGNED_8BIT }, [])
+    else if en == c_rd then
+      (s, [(((if pos == row.opOffI then (opc + s.opOffset) % 256 else opc) + s.rdOffset) % 256)])
+    else (s, [])
+
+/-- loop of `assemble_instr` over the opcode slots -/
 def assembleSlots (row : Row) : Instr → Nat → List Nat → Instr × Bytes
   | s, _, [] => (s, [])
   | s, pos, slot :: rest =>
-    let opc := slot &&& 0xff
-    if slot &&& (2 ^ 32 - 256) == 0 then
-      let opc := if pos == row.opOffI then (opc + s.opOffset) % 256 else opc
-      let (s', tl) := assembleSlots row s (pos + 1) rest
-      (s', opc :: tl)
-    else
-      let en := slot &&& c_GET_EN
-      if en == c_REX then
-        let (s', tl) := assembleSlots row s (pos + 1) rest
-        (s', if s.hex.rex != 0 then (s.hex.rex % 256) :: tl else tl)
-      else if en == c_REG then
-        let (s', tl) := assembleSlots row s (pos + 1) rest
-        (s', (s.hex.reg % 256) :: tl)
-      else if en == c_VEX then
-        let v := assembleVEX s (slot &&& (2 ^ 32 - 1 - c_GET_EN))
-        let (s', tl) := assembleSlots row s (pos + 1) rest
-        (s', v ++ tl)
-      else if en == c_ib then
-        assembleSlots row { s with reducedImm := true, cons := s.cons &&& c_MAX_UNSIGNED_8BIT }
-          (pos + 1) rest
-      else if en == c_rd then
-        let opc := if pos == row.opOffI then (opc + s.opOffset) % 256 else opc
-        let (s', tl) := assembleSlots row s (pos + 1) rest
-        (s', ((opc + s.rdOffset) % 256) :: tl)
-      else assembleSlots row s (pos + 1) rest
+    let (s1, b) := emitSlot row s pos slot
+    let (s2, tl) := assembleSlots row s1 (pos + 1) rest
+    (s2, b ++ tl)
 
 /-- `assemble_instr`. -/
 def assembleInstr (s : Instr) : Instr × Bytes :=
